@@ -12,7 +12,25 @@ from runner import run_property, shrink  # noqa: E402
 from common import Driver  # noqa: E402
 
 
+def limit_memory():
+    """an input on which the implementation's memory use explodes (a string iterated letter by letter into
+    factorially many permutations, ...) must surface as a MemoryError INSIDE the call - which the harnesses record as
+    an outcome like any other exception - instead of the whole harness being killed by the kernel (which the check
+    could only report as an infrastructure failure)"""
+    try:
+        import resource
+        gb = float(os.environ.get("XGCM_VERIF_MEM_GB", "10"))
+        lim = int(gb * (1 << 30))
+        soft, hard = resource.getrlimit(resource.RLIMIT_AS)
+        if hard != resource.RLIM_INFINITY:
+            lim = min(lim, hard)
+        resource.setrlimit(resource.RLIMIT_AS, (lim, hard))
+    except Exception:  # noqa: BLE001  -- no such limit on this platform: run without
+        pass
+
+
 def main():
+    limit_memory()
     ap = argparse.ArgumentParser()
     ap.add_argument("pid")
     ap.add_argument("--tier", default="quick")
